@@ -83,7 +83,7 @@ theorem solo_consumer (s : St) (l : List Bytes) (call : Call)
         apply propext; constructor
         · intro h; omega
         · intro h; exact h.elim
-      refine ⟨11, ?_⟩
+      refine ⟨12, ?_⟩
       simp [holds, SoloC, iterC, stepC, St.toQ, Call.op, Ret.out, Seq.apply, Seq.dequeue, Seq.getDepthTok, Seq.lock,
           Seq.unlock, Seq.republish, Seq.recvTok, Seq.sendTok, bind, Except.bind, pure, Except.pure, hne]
   | dequeueAll =>
@@ -173,7 +173,7 @@ def afterState : St :=
 
 theorem afterState_reach : Reach afterState := by
   refine reach_sched
-    ((List.replicate 7 (.inl [1])) ++ (List.replicate 7 (.inl [2])) ++ List.replicate 11 (.inr .dequeue))
+    ((List.replicate 7 (.inl [1])) ++ (List.replicate 7 (.inl [2])) ++ List.replicate 12 (.inr .dequeue))
     init _ .init ?_
   decide
 
